@@ -711,6 +711,10 @@ func (ref *Node) DoNewObject(t reflect.Type, m meta.Definition, insideList bool)
 				case val.FmtDecimal64:
 					return reflect.ValueOf(make(map[float64]interface{})), nil
 				}
+			} else if len(keyMeta) > 1 && !insideList {
+				// a map can only be indexed by a single key, entries that share
+				// their first key component would silently be merged
+				return reflect.ValueOf(make([]map[string]interface{}, 0)), nil
 			}
 		}
 		return reflect.ValueOf(make(map[interface{}]interface{})), nil
